@@ -27,7 +27,7 @@ class TimePattern(i_lib.TimePattern):
             hours, minutes, *_ = the_match.groups()
             if TimePattern.patterns_valid(hours, minutes):
                 return TimePattern(hours, minutes)
-        return TimePattern(None, None)
+        return None
 
     @staticmethod
     def patterns_valid(hours, minutes):
